@@ -230,11 +230,19 @@ def lake_build(targets):
     return rc == 0, (out + err)
 
 
-def source_scan(pid):
+def source_scan(pid, extra=()):
     """grep the hand-written Lean sources for constructs the trusted base excludes."""
     hits = []
     # only the property's own transitive project-local imports (other builders' files are not its business)
-    files = [LEAN_DIR / (m.replace(".", "/") + ".lean") for m in local_import_closure(f"Props.{pid}")]
+    mods = set(local_import_closure(f"Props.{pid}"))
+    if extra:  # loop-tie modules of the property (DESIGN §12): their hand-written proof files too
+        try:
+            import translate2
+            for m in extra:
+                mods |= set(local_import_closure(translate2.TIE_INFO[m]["tie_module"]))
+        except Exception:
+            pass
+    files = [LEAN_DIR / (m.replace(".", "/") + ".lean") for m in sorted(mods)]
     if True:
         for f in sorted(files):
             in_block = 0
@@ -289,7 +297,7 @@ def local_import_closure(module):
             continue
         seen.append(m)
         for line in f.read_text().splitlines():
-            mm = re.match(r"^\s*import\s+((?:Model|Proofs|Props)\.[A-Za-z0-9_.]+)", line)
+            mm = re.match(r"^\s*import\s+((?:Model|Proofs|Props|Generated)\.[A-Za-z0-9_.]+)", line)
             if mm:
                 todo.append(mm.group(1))
     return sorted(seen)
@@ -348,6 +356,64 @@ def regenerate_and_check(modules):
                 for m in modules:
                     try:
                         (gdir / f"{m}.lean").write_text(translate.GENERATORS[m](Path("/repo")))
+                    except Exception:
+                        pass
+            fcntl.flock(lockf, fcntl.LOCK_UN)
+    return thms, broken
+
+
+def regenerate_and_check_loops(modules):
+    """Loop ties (DESIGN §12): regenerate lean/Generated/<M>.lean (definitions only) from the CURRENT Python
+    source with harness/translate2.py, rebuild the hand-written tie module `Proofs.Tie*` that imports it
+    (theorems `Generated.<M>.f … = Model.Impl.g …`, proved for all sizes), audit the tie theorems.
+    returns (tie_theorems [(name, axioms)], broken | None)"""
+    import fcntl
+    import translate2
+
+    gdir = LEAN_DIR / "Generated"
+    gdir.mkdir(exist_ok=True)
+    thms, broken = [], None
+    with open(gdir / ".lock", "w") as lockf:
+        fcntl.flock(lockf, fcntl.LOCK_EX)
+        try:
+            for m in modules:
+                info = translate2.TIE_INFO[m]
+                tie_mod, ns = info["tie_module"], info["namespace"]
+                tie_file = LEAN_DIR / (tie_mod.replace(".", "/") + ".lean")
+                all_ties = [f"{ns}.{n}" for n in re.findall(r"^theorem (\S+)", tie_file.read_text(), re.M)] \
+                    if tie_file.exists() else [f"{ns}.*"]
+                f = gdir / f"{m}.lean"
+                try:
+                    src = translate2.GENERATORS2[m](REPO)
+                except Exception as e:
+                    # the source left the translated subset (or a tied function disappeared): every tie of
+                    # the module is lost
+                    broken = {"kind": "loop_tie", "module": m, "theorems": all_ties,
+                              "error": f"translator: {type(e).__name__}: {e}"}
+                    continue
+                if not f.exists() or f.read_text() != src:
+                    f.write_text(src)
+                ok, log = lake_build([tie_mod])
+                if not ok:
+                    names = []
+                    tie_lines = tie_file.read_text().splitlines() if tie_file.exists() else []
+                    rel = str(tie_file.relative_to(LEAN_DIR)) if tie_file.exists() else ""
+                    for fn, ln in re.findall(r"error: (\S+\.lean):(\d+):\d+", log):
+                        if rel and fn.endswith(rel):
+                            for k in range(min(int(ln), len(tie_lines)) - 1, -1, -1):
+                                mm = re.match(r"theorem (\S+)", tie_lines[k])
+                                if mm:
+                                    names.append(f"{ns}.{mm.group(1)}")
+                                    break
+                    broken = {"kind": "loop_tie", "module": m,
+                              "theorems": sorted(set(names)) or all_ties, "log_tail": log[-1500:]}
+                else:
+                    thms += audit(ns, module=tie_mod)
+        finally:
+            if REPO.resolve() != Path("/repo").resolve():
+                for m in modules:
+                    try:
+                        (gdir / f"{m}.lean").write_text(translate2.GENERATORS2[m](Path("/repo")))
                     except Exception:
                         pass
             fcntl.flock(lockf, fcntl.LOCK_UN)
@@ -578,7 +644,14 @@ def run_check(chk: PropertyCheck, tier: str, seed: int, replay: str | None = Non
         thms = thms + tie_thms
         if tie_broken:
             proof_broken.append(tie_broken)
-    scan_hits = source_scan(pid) if ok_build else []
+    loop_mods = list(getattr(chk, "loop_tie_modules", []) or [])
+    if loop_mods and not replay:
+        loop_thms, loop_broken = regenerate_and_check_loops(loop_mods)
+        tie_thms = tie_thms + loop_thms
+        thms = thms + loop_thms
+        if loop_broken:
+            proof_broken.append(loop_broken)
+    scan_hits = source_scan(pid, extra=loop_mods) if ok_build else []
     bad_axioms = [(t, a) for t, a in thms if not set(a) <= ALLOWED_AXIOMS]
     obligations = len(thms)
     discharged = len(thms) - len(bad_axioms)
@@ -588,6 +661,13 @@ def run_check(chk: PropertyCheck, tier: str, seed: int, replay: str | None = Non
     rechecked = None
     if ok_build and tier == "thorough" and not replay:
         mods = local_import_closure(f"Props.{pid}")
+        if loop_mods:
+            try:
+                import translate2
+                for m in loop_mods:
+                    mods = sorted(set(mods) | set(local_import_closure(translate2.TIE_INFO[m]["tie_module"])))
+            except Exception:
+                pass
         ok_lc, lc_log = leanchecker(mods)
         rechecked = {"modules": mods, "ok": ok_lc}
         if not ok_lc:
